@@ -30,6 +30,9 @@ func (t *translator) translateFn(fi *fnInfo, emitDep func(*fnInfo)) {
 	if err != nil {
 		c.fail(fi.decl, "%v", err)
 	}
+	if fi.isInit {
+		comps = append([]string{"Globals"}, comps...)
+	}
 	c.retT = tupleType(comps)
 	c.computeNatVars()
 	c.aliasCheck()
@@ -66,12 +69,15 @@ func (t *translator) translateFn(fi *fnInfo, emitDep func(*fnInfo)) {
 	if fi.usesPrims {
 		prims = " (P : Prims)"
 	}
+	if fi.usesGlobals || fi.isInit {
+		prims += " (G_ : Globals)"
+	}
 	fi.code = strings.Replace(hdr.String(), "«PRIMS»", prims, 1) + indent(pre.String()+body, "  ") + "\n"
 	for i, a := range fi.aux {
 		fi.aux[i] = strings.ReplaceAll(a, "«LOOPPRIMS»", prims)
-		fi.aux[i] = strings.ReplaceAll(fi.aux[i], "«LOOPP»", map[bool]string{true: " P", false: ""}[fi.usesPrims])
+		fi.aux[i] = strings.ReplaceAll(fi.aux[i], "«LOOPP»", loopArgs(fi))
 	}
-	fi.code = strings.ReplaceAll(fi.code, "«LOOPP»", map[bool]string{true: " P", false: ""}[fi.usesPrims])
+	fi.code = strings.ReplaceAll(fi.code, "«LOOPP»", loopArgs(fi))
 }
 
 func indent(s, pre string) string {
@@ -84,6 +90,9 @@ func indent(s, pre string) string {
 
 func (c *fctx) okReturn(results []string) string {
 	var vals []string
+	if c.fi.isInit {
+		vals = append(vals, "G_")
+	}
 	for _, p := range c.fi.params {
 		if c.fi.mutated[p] {
 			vals = append(vals, c.name(p))
@@ -1064,4 +1073,15 @@ func (c *fctx) rangeStmt(s *ast.RangeStmt, rest []ast.Stmt, k string) string {
 	c.fi.aux = append(c.fi.aux, def)
 	call := name + "«LOOPP» " + xs + " 0 " + strings.Join(append(append([]string{}, enames...), snames...), " ")
 	return pre + c.afterLoop(s, call, state, snames, rest, k, valueRet)
+}
+
+func loopArgs(fi *fnInfo) string {
+	s := ""
+	if fi.usesPrims {
+		s += " P"
+	}
+	if fi.usesGlobals || fi.isInit {
+		s += " G_"
+	}
+	return s
 }
